@@ -2186,7 +2186,8 @@ let rec loop_margin fuel g q0 cur =
                       | Some hq' ->
                         (match deref g' q0 cur with
                          | Some qm' ->
-                           let moved = quad_margin hq' in
+                           let moved = qmin (quad_margin hq) (quad_margin hq')
+                           in
                            if veq_bool hq'.qc qm'.qc
                            then qmin here moved
                            else let d =
@@ -2218,7 +2219,9 @@ let rec loop_margin fuel g q0 cur =
                          | Some hq' ->
                            (match deref g' q0 cur with
                             | Some qm' ->
-                              let moved = quad_margin hq' in
+                              let moved =
+                                qmin (quad_margin hq) (quad_margin hq')
+                              in
                               if veq_bool hq'.qc qm'.qc
                               then qmin here moved
                               else let d =
